@@ -404,6 +404,110 @@ func runC11(c *core.Ctx) {
 		}
 	}
 	h3.Close()
+	// a composed MonadIO is a value: two (or more) MonadIOs derived from the SAME parent are independent of each other.
+	// parent depths 0..18 x all ordered pairs of continuation kinds, each branch extended once more afterwards
+	for d := 0; d <= c.Pick(18, 40); d++ {
+		for ja := 0; ja < c11NConts; ja++ {
+			for jb := 0; jb < c11NConts; jb++ {
+				c.Eval(1)
+				c.DistinctAdd(1)
+				parent := c11Prog{leaf: 1 + d%2}
+				for k := 0; k < d; k++ {
+					parent.conts = append(parent.conts, (k+ja+jb)%c11NConts)
+				}
+				pa := c11Prog{leaf: parent.leaf, conts: append(append([]int(nil), parent.conts...), ja)}
+				pb := c11Prog{leaf: parent.leaf, conts: append(append([]int(nil), parent.conts...), jb)}
+				pa2 := c11Prog{leaf: parent.leaf, conts: append(append([]int(nil), pa.conts...), jb)}
+				pb2 := c11Prog{leaf: parent.leaf, conts: append(append([]int(nil), pb.conts...), ja)}
+				pv, where := core.Catch(func() {
+					l := &c11Log{}
+					mp := c11Build(l, parent)
+					ma := mp.FlatMap(c11Cont(l, ja, d))
+					mb := mp.FlatMap(c11Cont(l, jb, d))
+					ma2 := ma.FlatMap(c11Cont(l, jb, d+1))
+					mb2 := mb.FlatMap(c11Cont(l, ja, d+1))
+					for round := 0; round < 2; round++ {
+						for _, t := range []struct {
+							name string
+							m    *fpgo.MonadIODef[int]
+							p    c11Prog
+						}{{"first child a = p.FlatMap(f)", ma, pa}, {"second child b = p.FlatMap(g)", mb, pb}, {"the parent p", mp, parent}, {"a.FlatMap(g)", ma2, pa2}, {"b.FlatMap(f)", mb2, pb2}} {
+							wantV, wantLog := c11Model(t.p)
+							before, _ := l.snapshot()
+							v := t.m.Eval()
+							after, _ := l.snapshot()
+							if v != wantV || !eqSeq(after[len(before):], wantLog) {
+								c.Violationf("branch:children-of-one-parent-interfere", map[string]any{"parent": parent.String(), "f": ja, "g": jb, "which": t.name},
+									"parent %s (depth %d) with two children a = p.FlatMap(f%d), b = p.FlatMap(f%d): evaluating %s gave (%d, effects %v), want (%d, %v)", parent, d, ja, jb, t.name, v, after[len(before):], wantV, wantLog)
+								return
+							}
+						}
+					}
+				})
+				if pv != nil {
+					c.Violationf("panic:branching", nil, "branching composition panics: %v at %s", pv, where)
+				}
+			}
+		}
+	}
+	// each Subscribe delivers the value of ITS evaluation, also when earlier deliveries are still pending on a busy
+	// subscribe handler and the effect's value differs between evaluations
+	for variant := 0; variant < 4; variant++ {
+		c.Eval(1)
+		c.DistinctAdd(1)
+		variant := variant
+		pv, where := core.Catch(func() {
+			hb := fpgo.Handler.NewByCh(make(chan func(), 8))
+			defer hb.Close()
+			gate := make(chan struct{})
+			hb.Post(func() { <-gate }) // the subscribe handler is busy
+			n := 0
+			m := fpgo.MonadIONewGenerics(func() int { n++; return n })
+			if variant&1 != 0 {
+				m = m.FlatMap(func(x int) *fpgo.MonadIODef[int] { return fpgo.MonadIOJustGenerics(x * 10) })
+			}
+			if variant&2 != 0 {
+				m = m.ObserveOn(e.h1)
+			}
+			m = m.SubscribeOn(hb)
+			const subs = 5
+			var mu sync.Mutex
+			got := make([]int, subs)
+			done := make(chan struct{}, subs)
+			for k := 0; k < subs; k++ {
+				k := k
+				m.Subscribe(fpgo.Subscription[int]{OnNext: func(v int) { mu.Lock(); got[k] = v; mu.Unlock(); done <- struct{}{} }})
+				if variant&2 != 0 {
+					handlerGoid(e.h1) // the k-th effect has run before the next Subscribe (values are 1..subs in Subscribe order)
+				}
+			}
+			close(gate)
+			for k := 0; k < subs; k++ {
+				select {
+				case <-done:
+				case <-time.After(20 * time.Second):
+					c.Violationf("subscribe:never-delivered", map[string]any{"variant": variant}, "pending deliveries on a busy subscribe handler never arrived")
+					return
+				}
+			}
+			want := make([]int, subs)
+			for k := range want {
+				want[k] = k + 1
+				if variant&1 != 0 {
+					want[k] *= 10
+				}
+			}
+			mu.Lock()
+			defer mu.Unlock()
+			if !eqSeq(got, want) {
+				c.Violationf("subscribe:value-of-another-evaluation", map[string]any{"variant": variant},
+					"%d Subscribes of one MonadIO whose effect counts its evaluations, deliveries pending on a busy SubscribeOn handler (observeOn=%v, FlatMap=%v): the subscriptions received %v, want %v (each the value of its own evaluation)", subs, variant&2 != 0, variant&1 != 0, got, want)
+			}
+		})
+		if pv != nil {
+			c.Violationf("panic:pending-deliveries", nil, "Subscribe with pending deliveries panics: %v at %s", pv, where)
+		}
+	}
 	// interface{} entry points
 	c.Eval(1)
 	pv, where := core.Catch(func() {
@@ -436,7 +540,7 @@ func init() {
 		Meta: func(c *core.Ctx) core.Meta {
 			return core.Meta{
 				Level: "exploration",
-				Rule: "programs = Just/New leaves followed by a FlatMap chain of depth <= D (D=3 quick, 5 thorough; all chains enumerated) over 5 continuation kinds (pure Just, New with effect, nested FlatMap, continuation that logs when called, FlatMap(Just) tail) plus PRNG chains up to length 30; each program: log empty after construction and after ObserveOn/SubscribeOn, Eval x3 and Subscribe x2 under all four nil/non-nil handler combinations each add exactly the expected effect sequence and deliver exactly one value, goroutine identity of effects and OnNext, nil OnNext runs nothing, handlers stay bound to a subscription when the MonadIO is re-configured while its effect is in flight, left/right identity and associativity by (value, effect log). " +
+				Rule: "programs = Just/New leaves followed by a FlatMap chain of depth <= D (D=3 quick, 5 thorough; all chains enumerated) over 5 continuation kinds (pure Just, New with effect, nested FlatMap, continuation that logs when called, FlatMap(Just) tail) plus PRNG chains up to length 30; each program: log empty after construction and after ObserveOn/SubscribeOn, Eval x3 and Subscribe x2 under all four nil/non-nil handler combinations each add exactly the expected effect sequence and deliver exactly one value, goroutine identity of effects and OnNext, nil OnNext runs nothing, handlers stay bound to a subscription when the MonadIO is re-configured while its effect is in flight, left/right identity and associativity by (value, effect log); branching compositions (two children of one parent of depth 0..18 (thorough 40) x all 25 continuation pairs, each extended once more, evaluated twice in interleaved order); 5 Subscribes of one counting MonadIO whose deliveries are pending on a busy SubscribeOn handler (each must get the value of its own evaluation). " +
 					"distinct_nontrivial = enumerated (program, mode) cases whose expected effect log is non-empty",
 				Assumptions: []string{"observe and subscribe handlers are two distinct handlers (posting to an unbuffered handler from its own goroutine blocks by construction)",
 					"with ObserveOn only, OnNext runs on the observe handler's goroutine", "sequential driver: the property quantifies over compositions, not schedules"},
